@@ -2178,6 +2178,11 @@ impl OutboundPayments {
 		(payment, onion_session_privs)
 	}
 
+	/// Whether `payment_id` is in use, i.e. whether starting a new payment with it would be refused.
+	pub(super) fn is_payment_id_in_use(&self, payment_id: PaymentId) -> bool {
+		self.pending_outbound_payments.lock().unwrap().contains_key(&payment_id)
+	}
+
 	pub(super) fn add_new_awaiting_invoice(
 		&self, payment_id: PaymentId, expiration: StaleExpiration, retry_strategy: Retry,
 		route_params_config: RouteParametersConfig,
